@@ -299,14 +299,117 @@ pub fn setup_env() {
     }
 }
 
-fn impl_prepath(p: &str) -> Result<String, String> {
-    let p = p.to_string();
+/// one path-carrying setting of the configuration with the strings put into it
+#[derive(Clone, Debug)]
+pub struct PathCase {
+    /// 0 workspace.workspaceRoots, 1 workspace.ignoreDir, 2 resource.paths, 3 workspace.library (plain),
+    /// 4 workspace.packages (plain), 5 workspace.library {path, ignoreDir}, 6 workspace.packages {path, ignoreDir}
+    pub setting: usize,
+    pub ws: String,
+    pub paths: Vec<String>,
+    pub dirs: Vec<String>,
+}
+
+pub const SETTINGS: &[&str] = &[
+    "workspace.workspaceRoots", "workspace.ignoreDir", "resource.paths", "workspace.library", "workspace.packages",
+    "workspace.library{path,ignoreDir}", "workspace.packages{path,ignoreDir}",
+];
+pub const ROOTS: &[&str] = &["/", "/ws", "/ws/proj", "/srv/project/ws", "/données/项目", "/a/b/c/d/e/f", "rel/ws", ""];
+
+impl PathCase {
+    fn to_json(&self) -> Value {
+        json!({"setting": SETTINGS[self.setting], "setting_index": self.setting, "workspace": self.ws, "paths": self.paths, "ignoreDir": self.dirs})
+    }
+    fn from_json(v: &Value) -> Option<PathCase> {
+        Some(PathCase {
+            setting: v.get("setting_index")?.as_u64()? as usize,
+            ws: v.get("workspace")?.as_str()?.to_string(),
+            paths: v.get("paths")?.as_array()?.iter().filter_map(|x| x.as_str().map(|s| s.to_string())).collect(),
+            dirs: v.get("ignoreDir")?.as_array()?.iter().filter_map(|x| x.as_str().map(|s| s.to_string())).collect(),
+        })
+    }
+    fn request(&self) -> String {
+        let mut r = format!("json.{} {} {} - {}", if self.setting >= 5 { "prepathcfg" } else { "prepaths" }, hex(&self.ws), hex(HOME), ENV.len());
+        for (k, v) in ENV {
+            r.push_str(&format!(" {} {}", hex(k), hex(v)));
+        }
+        for p in &self.paths {
+            r.push_str(&format!(" {}", hex(p)));
+        }
+        if self.setting >= 5 {
+            for d in &self.dirs {
+                r.push_str(&format!(" {}", hex(d)));
+            }
+        }
+        r
+    }
+}
+
+/// the real `Emmyrc::pre_process_emmyrc` on a configuration that carries the strings in the chosen setting
+fn impl_pathcase(c: &PathCase) -> Result<String, String> {
+    use emmylua_code_analysis::{EmmyrcWorkspacePathConfig, EmmyrcWorkspacePathItem};
+    let c = c.clone();
     vh_common::catch(move || {
         let mut e = Emmyrc::default();
-        e.workspace.workspace_roots = vec![p];
-        e.pre_process_emmyrc(Path::new(WS));
-        format!("ok {}", hex(&e.workspace.workspace_roots[0]))
+        let plain = |ps: &Vec<String>| ps.iter().map(|p| EmmyrcWorkspacePathItem::Path(p.clone())).collect::<Vec<_>>();
+        let cfg = |c: &PathCase| {
+            vec![EmmyrcWorkspacePathItem::Config(EmmyrcWorkspacePathConfig { path: c.paths[0].clone(), ignore_dir: c.dirs.clone(), ignore_globs: vec![] })]
+        };
+        match c.setting {
+            0 => e.workspace.workspace_roots = c.paths.clone(),
+            1 => e.workspace.ignore_dir = c.paths.clone(),
+            2 => e.resource.paths = c.paths.clone(),
+            3 => e.workspace.library = plain(&c.paths),
+            4 => e.workspace.packages = plain(&c.paths),
+            5 => e.workspace.library = cfg(&c),
+            _ => e.workspace.packages = cfg(&c),
+        }
+        e.pre_process_emmyrc(Path::new(&c.ws));
+        let items = |v: &Vec<EmmyrcWorkspacePathItem>| -> String {
+            match v.first() {
+                Some(EmmyrcWorkspacePathItem::Config(k)) => format!("{}|{}", hex(&k.path), k.ignore_dir.iter().map(|d| hex(d)).collect::<Vec<_>>().join(",")),
+                _ => v.iter().map(|i| hex(i.get_path())).collect::<Vec<_>>().join(","),
+            }
+        };
+        let strs = |v: &Vec<String>| v.iter().map(|d| hex(d)).collect::<Vec<_>>().join(",");
+        format!(
+            "ok {}",
+            match c.setting {
+                0 => strs(&e.workspace.workspace_roots),
+                1 => strs(&e.workspace.ignore_dir),
+                2 => strs(&e.resource.paths),
+                3 | 5 => items(&e.workspace.library),
+                _ => items(&e.workspace.packages),
+            }
+        )
     })
+}
+
+/// On a model-vs-implementation disagreement: look for a concrete crashing input near the case
+/// (more leading `../` / `./` steps, shallower and deeper workspace roots, every setting).
+fn directed_path_search(c: &PathCase) -> Option<(PathCase, String)> {
+    let strip = |p: &str| {
+        let mut r = p;
+        loop {
+            if let Some(x) = r.strip_prefix("../") { r = x } else if let Some(x) = r.strip_prefix("./") { r = x } else { break }
+        }
+        r.to_string()
+    };
+    for ws in ROOTS.iter().map(|s| s.to_string()).chain(std::iter::once(c.ws.clone())) {
+        for k in 0..=10usize {
+            for lead in ["", "./"] {
+                for setting in 0..SETTINGS.len() {
+                    let mk = |p: &String| format!("{lead}{}{}", "../".repeat(k), strip(p));
+                    let cand = PathCase { setting, ws: ws.clone(), paths: c.paths.iter().map(mk).collect(), dirs: c.dirs.iter().map(mk).collect() };
+                    let cand = if cand.paths.is_empty() { PathCase { paths: vec![format!("{lead}{}x", "../".repeat(k))], ..cand } } else { cand };
+                    if let Err(m) = impl_pathcase(&cand) {
+                        return Some((cand, m));
+                    }
+                }
+            }
+        }
+    }
+    None
 }
 
 const PATH_PIECES: &[&str] = &[
@@ -314,6 +417,28 @@ const PATH_PIECES: &[&str] = &[
     "{workspaceFolder}", "${workspaceFolder}", "{env:VH_A}", "{env:VH_UNSET}", "{env:}", "{luarocks}", "{other}", "{", "}", "{}", "$",
     "$$", "..", ".", " ", "$1", "$_x", "$VH_A_", "{a{b}", "{workspaceFolder", "~x", "\\", "//",
 ];
+
+fn gen_relative_climb(rng: &mut Rng) -> String {
+    let mut p = String::new();
+    if rng.chance(1, 3) {
+        p.push_str("./");
+    }
+    for _ in 0..rng.below(9) {
+        p.push_str(if rng.chance(1, 6) { "./" } else { "../" });
+    }
+    p.push_str(*rng.pick(&["lib", "x/y", "", "é", "a/../b", "..", "."]));
+    p
+}
+
+fn gen_path_case(rng: &mut Rng) -> PathCase {
+    let setting = rng.below(SETTINGS.len());
+    let ws = (*rng.pick(ROOTS)).to_string();
+    let one = |rng: &mut Rng| if rng.chance(1, 2) { gen_relative_climb(rng) } else { gen_path_string(rng) };
+    let n = if setting >= 5 { 1 } else { rng.range(1, 3) };
+    let paths: Vec<String> = (0..n).map(|_| one(rng)).collect();
+    let dirs: Vec<String> = if setting >= 5 { (0..rng.below(3)).map(|_| one(rng)).collect() } else { vec![] };
+    PathCase { setting, ws, paths, dirs }
+}
 
 fn gen_path_string(rng: &mut Rng) -> String {
     if rng.chance(1, 10) {
@@ -398,7 +523,7 @@ pub fn run(args: &Args, report: &mut Report) {
     let n_fresh = if thorough { 120 } else { 20 };
 
     let mut sets: Vec<Vec<Value>> = Vec::new();
-    let mut path_strings: Vec<String> = Vec::new();
+    let mut path_cases: Vec<PathCase> = Vec::new();
 
     if let Some(f) = &args.replay {
         let v: Value = serde_json::from_str(&std::fs::read_to_string(f).expect("replay")).expect("json");
@@ -407,7 +532,10 @@ pub fn run(args: &Args, report: &mut Report) {
             sets.push(fs.clone());
         }
         if let Some(p) = inp.get("path").and_then(|x| x.as_str()) {
-            path_strings.push(p.to_string());
+            path_cases.push(PathCase { setting: 0, ws: WS.to_string(), paths: vec![p.to_string()], dirs: vec![] });
+        }
+        if let Some(c) = inp.get("path_case").and_then(PathCase::from_json) {
+            path_cases.push(c);
         }
     } else {
         // known-defect inputs of the unfixed tree first
@@ -428,11 +556,15 @@ pub fn run(args: &Args, report: &mut Report) {
             sets.push((0..n).map(|_| gen_file(&mut rng)).collect());
         }
         if !c32 {
-            for p in ["~", "~é", "", "~/x", "./x", "/abs", "rel", "${workspaceFolder}/x", "$VH_A/x", "{env:VH_A}"] {
-                path_strings.push(p.to_string());
+            for p in ["~", "~é", "", "~/x", "./x", "/abs", "rel", "${workspaceFolder}/x", "$VH_A/x", "{env:VH_A}", "../x", "../../../../../../x", "./../../x"] {
+                for ws in ROOTS {
+                    for setting in [0usize, 3, 5] {
+                        path_cases.push(PathCase { setting, ws: ws.to_string(), paths: vec![p.to_string()], dirs: if setting == 5 { vec![p.to_string()] } else { vec![] } });
+                    }
+                }
             }
             for _ in 0..n_paths {
-                path_strings.push(gen_path_string(&mut rng));
+                path_cases.push(gen_path_case(&mut rng));
             }
         }
     }
@@ -440,12 +572,8 @@ pub fn run(args: &Args, report: &mut Report) {
     // ---- tie: load_configs_raw vs model ----
     let reqs: Vec<String> = sets.iter().map(|s| load_request(s)).collect();
     let mut all_reqs = reqs.clone();
-    for p in &path_strings {
-        let mut r = format!("json.prepath {} {} - {}", hex(WS), hex(HOME), hex(p));
-        for (k, v) in ENV {
-            r.push_str(&format!(" {} {}", hex(k), hex(v)));
-        }
-        all_reqs.push(r);
+    for c in &path_cases {
+        all_reqs.push(c.request());
     }
     let answers = run_driver(&all_reqs);
     let mut seen: HashSet<String> = HashSet::new();
@@ -485,23 +613,32 @@ pub fn run(args: &Args, report: &mut Report) {
             report.oracle_failure(json!({"input": {"files": files}, "what": format!("load_configs/pre_process_emmyrc panicked: {m}"), "class": Value::Null}));
         }
     }
-    // ---- tie + oracle: path strings (C31) ----
-    for (j, p) in path_strings.iter().enumerate() {
+    // ---- tie + oracle: every path-carrying setting × workspace roots × path strings (C31) ----
+    let mut searched = 0;
+    for (j, c) in path_cases.iter().enumerate() {
         report.evaluations += 1;
         let model = &answers[sets.len() + j];
-        if seen.insert(format!("path:{p}")) && p.chars().any(|c| "~${}./\\".contains(c) || !c.is_ascii()) {
+        if seen.insert(format!("path:{:?}", c)) && c.paths.iter().chain(c.dirs.iter()).any(|p| p.chars().any(|ch| "~${}./\\".contains(ch) || !ch.is_ascii())) {
             report.distinct_nontrivial += 1;
         }
-        let imp = impl_prepath(p);
-        match &imp {
-            Err(m) => report.oracle_failure(json!({"input": {"path": p}, "what": format!("pre_process_path panicked: {m}"), "class": Value::Null})),
-            Ok(_) => {}
+        report.count(&format!("path_setting={}", SETTINGS[c.setting]));
+        report.count(&format!("path_root={:?}", c.ws));
+        let imp = impl_pathcase(c);
+        if let Err(m) = &imp {
+            report.oracle_failure(json!({"input": {"path_case": c.to_json()}, "what": format!("pre_process_emmyrc panicked: {m}"), "class": Value::Null}));
         }
         let imp_s = imp.unwrap_or_else(|_| "err panic".into());
         if model == "err unsupported" {
             report.count("prepath_model_unsupported(non-ascii after $)");
         } else if *model != imp_s {
-            report.mismatch(json!({"input": {"path": p}, "op": "json.prepath", "model": model, "impl": imp_s}));
+            report.mismatch(json!({"input": {"path_case": c.to_json()}, "op": "json.prepaths", "model": model, "impl": imp_s}));
+            // the disagreement itself is not a failing input: search its neighbourhood for one
+            if searched < 20 {
+                searched += 1;
+                if let Some((cand, m)) = directed_path_search(c) {
+                    report.oracle_failure(json!({"input": {"path_case": cand.to_json()}, "what": format!("pre_process_emmyrc panicked: {m} (found by the directed search around a model-vs-implementation disagreement)"), "class": Value::Null}));
+                }
+            }
         } else {
             report.traces_validated += 1;
             report.count("prepath_agree");
